@@ -54,7 +54,12 @@ func subtract(_ *dataTreeNavigator, context Context, lhs *CandidateNode, rhs *Ca
 		if rhs.Kind != SequenceNode {
 			return nil, fmt.Errorf("%v (%v) cannot be subtracted from %v", rhs.Tag, rhs.GetNicePath(), lhs.Tag)
 		}
-		target.Content = subtractArray(lhs, rhs)
+		for _, remaining := range subtractArray(lhs, rhs) {
+			entry := remaining.Copy()
+			// the entry moves up: AddChild gives it its new position as key
+			entry.Key = nil
+			target.AddChild(entry)
+		}
 	case ScalarNode:
 		if rhs.Kind != ScalarNode {
 			return nil, fmt.Errorf("%v (%v) cannot be subtracted from %v", rhs.Tag, rhs.GetNicePath(), lhs.Tag)
